@@ -8,6 +8,7 @@ from ..fold import Folder, NotFoldable
 from ..index import AnalysisError, Func, dotted, own_nodes
 from ..linform import Lin, NotLinear, eval_lin
 from .c10 import ALGOS, _main_loop
+from ..resolve import bind_call
 
 E = "quara.protocol.qtomography.standard."
 M = "quara.minimization_algorithm."
@@ -107,8 +108,12 @@ def _a2(ctx, rep):
             t = n.test
             if isinstance(t, ast.UnaryOp):
                 t = t.operand
-            if isinstance(t, ast.Compare) and isinstance(t.ops[0], (ast.In, ast.NotIn)) and isinstance(t.comparators[0], (ast.List, ast.Tuple)):
-                accepted = [const(x) for x in t.comparators[0].elts]
+            if isinstance(t, ast.Compare) and isinstance(t.ops[0], (ast.In, ast.NotIn)):
+                lst = t.comparators[0]
+                if isinstance(lst, ast.Name):
+                    lst = single_defs(opt).get(lst.id, lst)
+                if isinstance(lst, (ast.List, ast.Tuple, ast.Set)):
+                    accepted = [const(x) for x in lst.elts]
     if not accepted:
         rep.undecided("A2", opt, "accepted modes", "cannot read the accepted stopping modes")
         return
@@ -125,6 +130,23 @@ def _a2(ctx, rep):
                 m = const(n.test.comparators[0])
                 sets = any(isinstance(s, ast.Assign) and unparse(s.targets[0]) == "error_value" for s in n.body)
                 handled[m] = sets
+        if not handled:
+            # the error value may be computed by a private helper that dispatches on the mode it is handed
+            for n in ast.walk(lp):
+                if isinstance(n, ast.Assign) and isinstance(n.value, ast.Call) and isinstance(n.value.func, ast.Attribute) \
+                        and isinstance(n.value.func.value, ast.Name) and n.value.func.value.id == f.self_name and f.cls is not None:
+                    h = f.cls.lookup(n.value.func.attr)
+                    if h is None or not h.name.startswith("_"):
+                        continue
+                    b, _ = bind_call(n.value, h, h.kind == "method")
+                    mp = [p_ for p_, e_ in b.items() if "mode_stopping_criterion_gradient_descent" in unparse(e_)]
+                    if not mp:
+                        continue
+                    rets = {unparse(r.value) for r in returns(h) if r.value is not None}
+                    for c in ast.walk(h.node):
+                        if isinstance(c, ast.If) and isinstance(c.test, ast.Compare) and unparse(c.test.left) == mp[0] and isinstance(c.test.ops[0], ast.Eq):
+                            m = const(c.test.comparators[0])
+                            handled[m] = any((isinstance(s_, ast.Assign) and unparse(s_.targets[0]) in rets) or isinstance(s_, ast.Return) for s_ in c.body)
         missing = [m for m in accepted if not handled.get(m)]
         extra = [m for m in handled if m not in accepted]
         rep.check(not missing, "A2", f, "stopping modes", "all %d accepted modes define error_value" % len(accepted),
@@ -134,18 +156,22 @@ def _a2(ctx, rep):
         # continue while windowed sum > eps
         isd = [s for s in lp.body if isinstance(s, ast.Assign) and unparse(s.targets[0]) == "is_doing"]
         ok, why = False, "no `is_doing` update"
+        vtxt0 = ""
         if len(isd) == 1:
             v = isd[0].value
             cond = v.test if isinstance(v, ast.IfExp) and const(v.body) is True and const(v.orelse) is False else v
             if isinstance(cond, ast.Compare) and len(cond.ops) == 1:
                 a, b, o = unparse(cond.left), unparse(cond.comparators[0]), cond.ops[0]
-                if (a, b) == ("value", "eps") and isinstance(o, ast.Gt) or (a, b) == ("eps", "value") and isinstance(o, ast.Lt):
-                    ok = True
+                # the compared quantity is whichever local holds the windowed sum
+                ldefs = {unparse(s_.targets[0]): unparse(s_.value) for s_ in lp.body if isinstance(s_, ast.Assign) and isinstance(s_.targets[0], ast.Name)}
+                if b == "eps" and isinstance(o, ast.Gt) and a in ldefs:
+                    ok, vtxt0 = True, ldefs[a]
+                elif a == "eps" and isinstance(o, ast.Lt) and b in ldefs:
+                    ok, vtxt0 = True, ldefs[b]
                 else:
                     why = "continues while `%s`; must continue exactly while value > eps" % unparse(cond)
-        val = [s for s in lp.body if isinstance(s, ast.Assign) and unparse(s.targets[0]) == "value"]
         if ok:
-            vtxt = unparse(val[0].value) if len(val) == 1 else ""
+            vtxt = vtxt0
             if vtxt != "np.sum(error_values[-sum_range:])":
                 ok, why = False, "compared quantity is %s, expected the windowed sum np.sum(error_values[-sum_range:])" % vtxt
         brk = [s for s in lp.body if isinstance(s, ast.If) and unparse(s.test) == "not is_doing" and any(isinstance(x, ast.Break) for x in s.body)]
@@ -201,6 +227,29 @@ def _a3(ctx, rep):
             raises = all(isinstance(x, ast.Raise) for x in n.ast.body[-1:])
             if raises and cfg.dominates(n, on):
                 guards.append(unparse(n.ast.test))
+    # guards performed inside a private helper that is called unconditionally before optimize count as well: its own top-level
+    # `if <check fails>: raise` statements, with the helper's parameters replaced by the arguments of the call
+    from ..astutil import norm_atom, clone
+    from ..symsum import subst
+    from ..resolve import bind_call
+    for n in cfg.nodes:
+        c_ = n.ast if isinstance(n.ast, ast.Call) else (n.ast.value if isinstance(n.ast, ast.Expr) and isinstance(n.ast.value, ast.Call) else None)
+        if c_ is None or not cfg.dominates(n, on):
+            continue
+        t = None
+        if isinstance(c_.func, ast.Name):
+            t = ctx.ix.scope_lookup(f.module, f, c_.func.id)
+        elif isinstance(c_.func, ast.Attribute) and isinstance(c_.func.value, ast.Name) and c_.func.value.id == f.self_name and f.cls is not None:
+            t = f.cls.lookup(c_.func.attr)
+        if not isinstance(t, Func) or not t.name.startswith("_"):
+            continue
+        try:
+            b, errs = bind_call(c_, t, isinstance(c_.func, ast.Attribute) and t.kind == "method")
+        except Exception:
+            continue
+        for st in t.node.body:
+            if isinstance(st, ast.If) and not st.orelse and st.body and isinstance(st.body[-1], ast.Raise) and "sufficient()" in unparse(st.test):
+                guards.append(unparse(subst(st.test, b)))
     want = ["loss.is_option_sufficient() == False", "algo.is_loss_sufficient() == False", "algo.is_option_sufficient() == False",
             "algo.is_loss_and_option_sufficient() == False"]
     norm = [g.replace("not ", "").replace(" == False", "").replace(" is False", "") for g in guards]
